@@ -96,6 +96,11 @@ def build_cases(tier):
                 leaf = o.split(".")[-1]
                 if "." in o and leaf in ("u", "v", "w"):
                     cases.append({"oi": oi, "oo": oo, "pairs": [[leaf, o]], "wrap": wrap, "eval": False, "via": "api", "overlap": True})
+    # the leaf name of the input address is also a module-level annotated name that stands *before* the class / function
+    for oi, oo in multi_orders:
+        for i in ("A.attr", "A.opt", "g.b", "g.k", "A.m.b"):
+            for o in OUT_LOCS[:5]:
+                cases.append({"oi": oi, "oo": oo, "pairs": [[i, o]], "wrap": False, "eval": False, "via": "api", "leaf_before": True})
     # eval mode with the wrap template and several pairs (the same evaluated input used twice, two different inputs)
     for oi, oo in multi_orders:
         for wrap in (False, True):
@@ -241,6 +246,8 @@ class C14(core.Check):
         self._calls = getattr(self, "_calls", 0) + 1
         tag, num = "t%d" % (self._calls % 7), 10 + self._calls % 5
         in_src = module_src(IN_ITEMS, case["oi"], EVAL_PREFIX.format(tag=tag, num=num) if case["eval"] else "from typing import Optional\n")
+        if case.get("leaf_before"):
+            in_src = "attr: bytes = b'm'\nopt: int = 1\nb: float = 0.5\nk: str = 'k'\n\n\n" + in_src
         if case.get("plain_assign"):
             in_src += "\nX = 7\n\n\nclass P(object):\n    plain = 'p'\n"
         if case.get("overlap"):
